@@ -73,6 +73,67 @@ func init() {
 	})
 }
 
+func init() {
+	reg(&CheckDef{
+		ID: "C12",
+		Jobs: func(tier string, meta map[string]int) []Job {
+			js := []Job{job("fit", "H12a")}
+			for big := 0; big <= 1; big++ {
+				for _, h := range []string{"H12b", "H12c", "H12d"} {
+					js = append(js, job("fit", h, "big", big))
+				}
+				js = append(js, job("fit", "H12e", "big", big, "local", 0), job("fit", "H12e", "big", big, "local", 1))
+			}
+			return js
+		},
+		MustReach: []string{"C12.compressed.rule", "C12.explicit.rebases", "C12.utc.keeps-reference", "C12.local.wallclock", "C12.local.offset", "C12.sequence.second-compressed"},
+		Bounds: map[string]interface{}{
+			"quick":    "none on values: all 2^32 reference timestamps x 32 stored offsets x 256 header bytes (step lemma from any state satisfying Inv_ts), all 2^32 field values, both byte orders; sequences: explicit timestamp, optional local timestamp, two compressed records (longer runs by induction on the step lemma)",
+			"thorough": "same",
+		},
+		Outside: []string{"runs of more than two compressed records are covered by induction on H12a (Inv_ts is re-established by every writer outside the known-finding class) — a paper argument",
+			"definitions with several fields and narrower sizes are C02's subject"},
+		Assumptions: append([]string{"decoder pre-state built directly (var d decoder; fields set), record bytes placed in the decoder's buffer by vFeed",
+			"Inv_ts: timestamp != 0 => lastTimeOffset == timestamp & 31 (assumed in H12a, shown re-established in H12a/H12b; the local-timestamp writer is covered by H12e)"}, commonAssumptions...),
+	})
+	reg(&CheckDef{
+		ID: "C17",
+		Jobs: func(tier string, meta map[string]int) []Job {
+			js := []Job{job("fit", "H17a"), job("fit", "H17b"), job("fit", "H17t")}
+			rt := 12
+			if tier == "thorough" {
+				rt = 14
+			}
+			for lat := 0; lat <= 1; lat++ {
+				for neg := 0; neg <= 1; neg++ {
+					for k := -1; k <= 30; k++ {
+						if k == -1 && neg == 1 {
+							continue
+						}
+						if !(lat == 1 && neg == 0 && k == 30) { // every latitude >= 2^30 is invalid in the code (see KF-C17-lat-plus90): nothing to convert
+							js = append(js, job("fit", "H17d", "k", k, "neg", neg, "lat", lat))
+						}
+						if k <= rt {
+							j := job("fit", "H17e", "k", k, "neg", neg, "lat", lat)
+							j.Timeout = 300000
+							js = append(js, j)
+						}
+					}
+				}
+			}
+			return js
+		},
+		MustReach: []string{"C17.lat.invalid-iff", "C17.lng.invalid-iff", "C17.degrees.exact", "C17.lat.roundtrip", "C17.lng.roundtrip", "C17.time.roundtrip"},
+		Bounds: map[string]interface{}{
+			"quick":    "integer clauses, NaN-iff-invalid, Degrees exactness and the time bijection: none (all 2^32 values; Degrees decided per magnitude class 2^k <= |s| < 2^(k+1), all 31 classes x sign x type); degrees->semicircles round trip within one semicircle: |s| < 2^13 only",
+			"thorough": "as quick; round trip: |s| < 2^15",
+		},
+		Outside: []string{"round trip for |s| >= the stated magnitude: two FP multiplications by an inexact constant do not finish (z3 5.1.0 > 600 s at 2^20)",
+			"the printed form (strconv.FormatFloat) is not encodable"},
+		Assumptions: append([]string{"time.Time methods are executed from the standard library's SSA; interval simplifier rewrites (x*1e9)/1e9 -> x when no overflow is possible"}, commonAssumptions...),
+	})
+}
+
 // ---------------------------------------------------------------- mutants
 
 type Mutant struct {
